@@ -489,6 +489,23 @@ func runC17(c *Ctx) {
 				c.Violate(Finding{Desc: fmt.Sprintf("the same %d bytes load differently through LoadFromData, LoadFromReader and LoadFromFile", len(data)), Key: "entry-points-differ", Input: in,
 					Go: J{"data": trunc(canon(want), 600), "reader": trunc(canon(viaReader), 600), "file": trunc(canon(viaFile), 600)}})
 			}
+			// a reader that fails is not a document: whatever it delivered before failing (nothing, half of the document, all of it
+			// without an end of file) must not be loaded
+			if data != nil {
+				for _, at := range []int{0, len(data) / 2, len(data)} {
+					cfg, err := load.LoadFromReader(&failingReader{data: data, failAt: at})
+					c.Eval(1)
+					c.Tag("entryPoints.failingReader")
+					if err == nil {
+						got := cfgOut{OK: false}
+						if cfg != nil {
+							got = describeCfg(cfg)
+						}
+						c.Violate(Finding{Desc: fmt.Sprintf("LoadFromReader returns a configuration although the reader failed after %d of %d bytes", at, len(data)), Key: "reader-error-ignored",
+							Input: J{"bytes": len(data), "readerFailsAfterBytes": at, "head": trunc(string(data), 200)}, Go: trunc(canon(got), 400)})
+					}
+				}
+			}
 			// a configuration file need not be a regular file: a symbolic link (how a mounted ConfigMap presents its keys), a
 			// named pipe (process substitution, a secrets agent) — whatever can be opened and read to the end is the document
 			if data != nil && len(data) < 400000 {
@@ -699,4 +716,20 @@ func runC17(c *Ctx) {
 			}
 		}
 	}
+}
+
+// failingReader delivers data[:failAt] and then fails (never an end of file)
+type failingReader struct {
+	data   []byte
+	failAt int
+	pos    int
+}
+
+func (f *failingReader) Read(p []byte) (int, error) {
+	if f.pos >= f.failAt {
+		return 0, fmt.Errorf("read: connection reset by peer")
+	}
+	n := copy(p, f.data[f.pos:f.failAt])
+	f.pos += n
+	return n, nil
 }
